@@ -437,7 +437,7 @@ Section Get.
     pose proof m_pos as Hm.
     assert (Hnil : index_of es <> []).
     { intros E. rewrite E in Hm. cbn [length] in Hm. lia. }
-    unfold search_index. destruct (index_of es) as [|o0 offs0] eqn:Eoffs; [congruence|].
+    unfold search_index, search_index_with. destruct (index_of es) as [|o0 offs0] eqn:Eoffs; [congruence|].
     cbv iota. rewrite <- Eoffs. rewrite <- Eoffs in Hm. clear Hnil Eoffs o0 offs0. fold cmpf.
     destruct (bsearch_top cmpf (index_of es) c m cmpf_at c_mono) as (r & Hbs & Hrm & Hlo & Hhi).
     rewrite Hbs.
